@@ -262,4 +262,22 @@ theorem readAt_rollback {m : VMap} (hu : Uniq m) {t v : Nat} (hv : v ≤ t) (k :
   · rintro ⟨w, hm, hw, hmax⟩
     exact ⟨w, mem_rollback.mpr ⟨hm, by simp; omega⟩, hw, fun w' y h' hw' => hmax w' y (mem_rollback.mp h').1 hw'⟩
 
+/-- after a rollback to `t`, a reader at ANY version sees the map as of `min v t`: nothing of the versions
+above `t` is left for a reader at `v > t` to find -/
+theorem readAt_rollback_any {m : VMap} (hu : Uniq m) (t v : Nat) (k : Bytes) :
+    readAt (m.rollback t) v k = readAt m (min v t) k := by
+  by_cases hv : v ≤ t
+  · rw [Nat.min_eq_left hv]; exact readAt_rollback hu hv k
+  · have hu' : Uniq (m.rollback t) := fun k w y y' h1 h2 => hu k w y y' (mem_rollback.mp h1).1 (mem_rollback.mp h2).1
+    rw [Nat.min_eq_right (by omega), ← readAt_rollback hu (Nat.le_refl t) k]
+    apply Option.ext
+    intro x
+    rw [readAt_iff hu', readAt_iff hu']
+    constructor
+    · rintro ⟨w, hm, _, hmax⟩
+      have hwt : w ≤ t := (mem_rollback.mp hm).2
+      exact ⟨w, hm, hwt, fun w' y h' _ => hmax w' y h' (by have := (mem_rollback.mp h').2; simp at this; omega)⟩
+    · rintro ⟨w, hm, hw, hmax⟩
+      exact ⟨w, hm, by omega, fun w' y h' _ => hmax w' y h' (mem_rollback.mp h').2⟩
+
 end Canopy.Store
